@@ -105,6 +105,22 @@ ALPHABETS = [
          tau1=[-1.4, 0.1, 0.6], diffs=[0.2, 1.1, 2.2]),
 ]
 
+# common levels of the utilities (added to every utility of an observation), per alphabet:
+#   levels  - large ones, beyond the range of exp() in double precision (|level| - |u| > 745): the logit kernel (logit /
+#             loglogit, mev / logmev on hand-supplied ln G_i) has to work on utility differences there;
+#   mlevels - moderate ones for the nested / cross-nested formulas (nest parameter x scale x |level + u| stays < 400, far
+#             inside the range of exp(): the library evaluates exp(mu_m V) as written).
+_LEVELS = [
+    ([800.0, -800.0, 1500.0, -1250.0], [45.0, -60.0]),
+    ([750.0, -900.0, 2000.0, -1100.0], [30.0, -75.0]),
+    ([1000.0, -760.0, 3000.0, -2500.0], [60.0, -40.0]),
+    ([725.0, -1000.0, 1750.0, -1500.0], [55.0, -70.0]),
+    ([900.0, -850.0, 1200.0, -5000.0], [35.0, -50.0]),
+]
+for _a, (_big, _mid) in zip(ALPHABETS, _LEVELS):
+    _a['levels'] = _big
+    _a['mlevels'] = _mid
+
 
 def alphabet(seed):
     return ALPHABETS[int(seed) % len(ALPHABETS)]
@@ -487,7 +503,13 @@ def key_tail(spec):
     h = spec.get('hist')
     if h and h.get('later'):
         return HIST_TAG
-    return f'{shape_of(spec)}|{forms_tag(spec)}'
+    return f'{shape_of(spec)}|{forms_tag(spec)}{evaluator_tag(spec)}'
+
+
+def evaluator_tag(spec):
+    """part of the finding key naming the evaluation entry point when it is not the engine on a database"""
+    ev = spec.get('evaluator')
+    return f'|evaluator={EVALUATOR_NAMES[ev]}' if ev else ''
 
 
 def key_model(spec):
@@ -600,16 +622,23 @@ def record_cases(spec, table, vals, bad, rec):
                    spec.get('mu'), spec.get('gen'), spec.get('forms'), pat]
             if spec.get('hist'):
                 key.append([spec['hist']['history'], spec['hist']['step']])
+            if spec.get('evaluator'):
+                key.append(spec['evaluator'])
             key = json.dumps(key, sort_keys=True, default=list)
         ok = not any(bad[g] for g in gs)
-        if spec.get('hist'):
+        if spec.get('evaluator'):
+            rec.case(key, None, outcome=(spec['model'], sum(pat), nt, ok, spec['evaluator']))
+        elif spec.get('hist'):
             rec.case(key, None, outcome=(spec['model'], sum(pat), nt, ok, 'history', len(spec['hist']['history']),
                                          bool(spec['hist'].get('later'))))
         else:
             rec.case(key, None, outcome=(spec['model'], sum(pat), nt, ok))
         rec.evals += len(gs) - 1
     rec.count('probability_vectors_compared', n_groups)
-    rec.count('engine_calls')
+    if spec.get('evaluator'):
+        rec.count('probability_vectors_compared_' + spec['evaluator'], n_groups)
+    else:
+        rec.count('engine_calls')
 
 
 def compare_log_pair(spec, table, vals_p, vals_l, rec):
@@ -632,8 +661,10 @@ def compare_log_pair(spec, table, vals_p, vals_l, rec):
                       case, expected=lp[g].tolist(), observed=vals_l[g].tolist())
 
 
-def run_family(base_spec, models, table, rec, extra_cols=None):
-    """Evaluates probability and log models of one structure / parameter point; all oracle clauses."""
+def run_family(base_spec, models, table, rec, extra_cols=None, log_gi_groups=None):
+    """Evaluates probability and log models of one structure / parameter point; all oracle clauses.
+    A spec with an 'evaluator' entry is evaluated without a database (see pyeval_spec), the others by the engine on the
+    table's database."""
     results = {}
     refs = {}
     for model, mu in models:
@@ -643,12 +674,15 @@ def run_family(base_spec, models, table, rec, extra_cols=None):
         if mu not in refs:
             refs[mu] = ref_spec_probs(spec, table)
         try:
-            vals = eval_spec(spec, table, extra_cols)
+            if spec.get('evaluator'):
+                vals = pyeval_spec(spec, table, rec, log_gi_groups)
+            else:
+                vals = eval_spec(spec, table, extra_cols)
         except Exception as e:  # a valid specification must evaluate: report, do not crash the harness
             if isinstance(e, RuntimeError):
                 rec.retire = True       # engine errors are sticky (DESIGN 3.1)
             grp = table.describe_group(0)
-            rec.violation(f'{ID}|model-raises-{type(e).__name__}|{model}|{shape_of(spec)}|{forms_tag(spec)}',
+            rec.violation(f'{ID}|model-raises-{type(e).__name__}|{model}|{shape_of(spec)}|{forms_tag(spec)}{evaluator_tag(spec)}',
                           f'{model} raised {type(e).__name__}: {str(e)[:300]} for a valid specification (alts {table.alts}, '
                           f'alone={spec.get("alone")} nests={spec.get("nests")} mus={spec.get("mus")} mu={spec.get("mu")})',
                           dict(part='spec', spec=spec, group=grp, base=grp), expected='a probability', observed=repr(e)[:300])
@@ -731,6 +765,11 @@ def tasks(tier, seed):
     t.append(dict(part='ordered_tail', seed=seed, tier=tier))
     # (G) histories of calls on one set of argument objects; every exported entry point (aliases, ln G_i helpers)
     t += hist_tasks(alph, tier, seed)
+    # (H) large common levels of the utilities through the engine; (I) formulas without data variables evaluated without a
+    # database: Expression.get_value (Python evaluator) and Expression.get_value_c(), small shifts and levels
+    for J in range(2, Jmax + 1):
+        t.append(dict(part='levels', J=J, seed=seed, tier=tier))
+    t += pyeval_tasks(alph, tier, seed)
     return t
 
 
@@ -767,6 +806,10 @@ def run_task(task):
         _part_ordered_tail(task, alph, rec)
     elif part == 'hist':
         _part_hist(task, alph, rec)
+    elif part == 'levels':
+        _part_levels(task, alph, rec)
+    elif part == 'pyeval':
+        _part_pyeval(task, alph, rec)
     else:
         raise ValueError(part)
     return rec.result()
@@ -1287,6 +1330,290 @@ def _part_hist(task, alph, rec):
     rec.sample(dict(part='hist', sub=task['sub'], context=ctx, histories=len(hs), first=hs[0], last=hs[-1]))
 
 
+# --------------------------------------------------------------------------- evaluation without a database; large levels
+# Formulas that hold no data variable (utilities given as numbers, Numeric, fixed / free Betas, Beta + Numeric) are evaluated
+# by the user with Expression.get_value() - the pure-Python evaluator of every expression class, for the logit kernel
+# LogLogit.get_value - or with Expression.get_value_c() without a database (the engine on one artificial row).  Both are
+# further ways to "the probabilities computed for one observation"; the same clauses are demanded, against the same
+# reference.  The common level of the utilities is part of the alphabet here: besides the small shifts, the large levels of
+# the alphabet (beyond the range of exp()) for the models that are a logit kernel on the given terms (logit / loglogit,
+# mev / logmev on hand-supplied ln G_i) and moderate levels for the nested / cross-nested formulas.
+EVALUATOR_NAMES = {'py': 'Expression.get_value', 'c0': 'Expression.get_value_c(no-database)'}
+PYINF_KEY = (f'{ID}|nonzero-probability-of-unavailable-alternative|Expression.get_value(python-evaluator)|'
+             'logit-kernel-returns-plus-infinity-for-an-unavailable-chosen-alternative')
+
+PY_FORM_SWEEP = [
+    # (utility form, availability form, choice form, one set of argument objects for the J calls of an observation)
+    ('beta+level', 'const', 'int', False), ('num', 'numeric', 'numeric', True), ('freebeta-reused', 'const', 'numeric', False),
+    ('fixbeta', 'none', 'int', True), ('freebeta', 'numeric', 'int', False), ('beta+level', 'none', 'numeric', True),
+    ('freebeta-reused', 'numeric', 'int', False), ('num', 'const', 'int', False),
+]
+
+
+def py_forms(k, si=0):
+    uf, af, cf, shared = PY_FORM_SWEEP[k % len(PY_FORM_SWEEP)]
+    return dict(u=uf, av=af, ch=cf, shared=shared, p=PFORMS[(k + si) % 4], mu=MUFORMS[(k + si // 2) % 4],
+                alpha=ALPHAFORMS[(k + si) % 3], syntax=('obj', 'tuple')[(k + si) % 2])
+
+
+def build_util_level(alts, form, u, s):
+    """utilities without data variables at the common level s (the value is u + s, the sum the table rows hold).
+    form: num | fixbeta | freebeta | freebeta-reused | beta+level (a Beta holding u plus a Numeric holding the level)"""
+    from biogeme.expressions import Numeric
+    V = {}
+    for k, a in enumerate(alts):
+        x = float(u[k]) + float(s)
+        if form == 'num':
+            V[a] = x if k % 2 == 0 else Numeric(x)
+        elif form == 'fixbeta':
+            V[a] = _beta(f'bu_{a}', x, 1)
+        elif form in ('freebeta', 'freebeta-reused'):
+            V[a] = _beta(f'bu_{a}', x, 0)
+        elif form == 'beta+level':
+            V[a] = _beta(f'bu_{a}', float(u[k]), k % 2) + Numeric(float(s))
+        else:
+            raise ValueError(form)
+    return V
+
+
+def level_table(alph, J, n_u, af, levels, two_shifted=False):
+    """every utility vector x every availability pattern at level 0; the corner utility vectors (two mixed corners if
+    two_shifted) again at every small shift and every level"""
+    alts = alph['labels'][:J]
+    us = uvectors(alph, J, n_u)
+    pats = [[p[a] for a in alts] for p in R.avail_patterns(alts)]
+    if af == 'none':
+        pats = pats[:1]
+    corner = [i for i, u in enumerate(us) if all(v in (g[0], g[-1]) for v, g in zip(u, ugrid_for(alph, J, n_u)))]
+    if two_shifted:
+        corner = [corner[1], corner[-2]]
+    return Table(alts, us, pats, list(alph['shifts']) + list(levels), corner)
+
+
+def user_logGi_groups(spec, table):
+    """hand-supplied ln G_i per group of the table.  G is homogeneous of degree gmu, hence
+    ln G_i(e^(V+s)) = ln G_i(e^V) + (gmu - 1) s: used for every level (the reference cannot form e^800); verified against the
+    direct computation at the small shifts (harness error otherwise)."""
+    alts = table.alts
+    G = gfun_of(spec)
+    gmu = spec.get('gmu') or 1.0
+    base = {}
+    out = []
+    for ui, pi, s in table.groups:
+        av = dict(zip(alts, table.pats[pi]))
+        if (ui, pi) not in base:
+            base[(ui, pi)] = R.log_Gi(G, dict(zip(alts, table.us[ui])), av)
+        lg = {a: v + (gmu - 1.0) * s for a, v in base[(ui, pi)].items()}
+        if s and abs(s) <= 15.0:
+            direct = R.log_Gi(G, dict(zip(alts, [v + s for v in table.us[ui]])), av)
+            if not all(abs(direct[a] - lg[a]) <= 1e-9 * max(1.0, abs(lg[a])) for a in lg):
+                raise RuntimeError(f'reference: homogeneity of G violated: {direct} vs {lg} for {spec} shift {s}')
+        out.append(lg)
+    return out
+
+
+def user_logGi_columns_h(spec, table):
+    """the same terms as data columns (one row per group and chosen alternative)"""
+    alts = table.alts
+    cols = {f'LG_{a}': [] for a in alts}
+    for lg in user_logGi_groups(spec, table):
+        for _ in alts:
+            for a in alts:
+                cols[f'LG_{a}'].append(lg.get(a, 0.0))
+    return cols
+
+
+def pyeval_spec(spec, table, rec, log_gi_groups=None):
+    """Builds the model of `spec` from constants / Betas for every (group, chosen alternative) of the table and evaluates it
+    without a database: spec['evaluator'] = 'py' (Expression.get_value) or 'c0' (Expression.get_value_c()).
+    Returns an array (n_groups, J) like eval_spec."""
+    import warnings
+    import numpy as np
+    from biogeme.expressions import Numeric
+
+    alts = table.alts
+    J = len(alts)
+    f = dict(default_forms(), **spec.get('forms', {}))
+    ev = spec['evaluator']
+    kind = spec['kind']
+    reuse = f['u'] == 'freebeta-reused'
+
+    def args(u, pat, s, lg):
+        V = build_util_level(alts, f['u'], u, s)
+        av = build_av(alts, f['av'], pat)
+        nests = mu = log_gi = None
+        if kind == 'nested':
+            nests = build_nested_nests(alts, (spec['alone'], spec['nests']), spec['mus'], f['syntax'], f['p'])
+        elif kind == 'cnl':
+            nests = build_cnl_nests(alts, (spec['alone'], spec['nests']), spec['mus'], f['syntax'], f['p'], f['alpha'])
+        elif kind == 'usermev':
+            log_gi = {}
+            for k, a in enumerate(alts[1:] + alts[:1]):          # rotated order
+                x = float(lg.get(a, 0.0))
+                log_gi[a] = _beta(f'lg_{a}', x, 0) if reuse else (x if k % 2 else Numeric(x))
+        if spec.get('mu') is not None:
+            mu = _param(f['mu'], 'mu_scale', spec['mu'])
+        return V, av, nests, mu, log_gi
+
+    def model_of(A, a):
+        V, av, nests, mu, log_gi = A
+        return build_model(spec['model'], V, av, nests, a if f['ch'] == 'int' else Numeric(a), mu, log_gi)
+
+    def value(expr):
+        if ev == 'py':
+            return float(expr.get_value())
+        return float(expr.get_value_c(prepare_ids=True))
+
+    vals = np.full((len(table.groups), J), np.nan)
+    lgs = log_gi_groups if log_gi_groups is not None else [{}] * len(table.groups)
+    with np.errstate(all='ignore'), warnings.catch_warnings():
+        warnings.simplefilter('ignore')
+        if reuse:
+            # one expression per (availability pattern, chosen alternative); the values of its free Betas are changed
+            # between the evaluations (Expression.change_init_values)
+            for pi, pat in enumerate(table.pats):
+                gs = [g for g, (_, p, _) in enumerate(table.groups) if p == pi]
+                ui0, _, s0 = table.groups[gs[0]]
+                for j, a in enumerate(alts):
+                    expr = model_of(args(table.us[ui0], pat, s0, lgs[gs[0]]), a)
+                    for g in gs:
+                        ui, _, s = table.groups[g]
+                        new = {f'bu_{b}': float(table.us[ui][k]) + float(s) for k, b in enumerate(alts)}
+                        new.update({f'lg_{b}': float(v) for b, v in lgs[g].items()})
+                        expr.change_init_values(new)
+                        vals[g, j] = value(expr)
+        else:
+            for g, (ui, pi, s) in enumerate(table.groups):
+                A = args(table.us[ui], table.pats[pi], s, lgs[g]) if f.get('shared') else None
+                for j, a in enumerate(alts):
+                    vals[g, j] = value(model_of(A or args(table.us[ui], table.pats[pi], s, lgs[g]), a))
+    rec.count('evaluations_' + ev, vals.size)
+    if ev == 'py':
+        # LogLogit.get_value returns -log(0) = +inf (instead of -inf) when the chosen alternative is unavailable: reported
+        # under ONE key; the entries are then set to the value the statement demands so that every other clause is still
+        # evaluated on the rest of the vector.  Any other wrong value of an unavailable alternative goes through the clauses.
+        A_ = np.asarray([table.pats[pi] for (_, pi, _) in table.groups], dtype=float)
+        m = (A_ == 0) & (vals == np.inf)
+        if m.any():
+            g = int(np.nonzero(m.any(axis=1))[0][0])
+            grp = table.describe_group(g)
+            rec.violation(PYINF_KEY, f'{spec["model"]}(...).get_value() returns +inf for an unavailable alternative: '
+                                     f'u={grp["u"]} avail={grp["avail"]} shift={grp["shift"]} (alts {alts}): {vals[g].tolist()}',
+                          dict(part='spec', spec=spec, group=grp, base=table.describe_group(table.base_of[g])),
+                          expected='-inf (log model) / 0 (probability model)', observed=vals[g].tolist())
+            rec.count('python_evaluator_plus_infinity_entries_masked', int(m.sum()))
+            vals[m] = -np.inf if spec['model'] in LOG_OF else 0.0
+    return vals
+
+
+def _part_levels(task, alph, rec):
+    """the engine on a database (data-column and free-Beta utilities) at the large levels: logit / loglogit, and mev /
+    logmev on hand-supplied ln G_i columns"""
+    J = task['J']
+    alts = alph['labels'][:J]
+    table = level_table(alph, J, 3, 'var', alph['levels'])
+    base = dict(kind='logit', alts=alts)
+    run_family(base, [('logit', None), ('loglogit', None)], table, rec)
+    small = Table(alts, table.us[1:3], table.pats, alph['levels'], [0, 1])
+    run_family(dict(base, forms=dict(u='freebeta', av='var', ch='var')), [('logit', None), ('loglogit', None)], small, rec)
+    gens = usermev_generators(alph, J)
+    for gi, (gen, gmu) in enumerate(gens):
+        if task['tier'] == 'quick' and J == 3 and gi % 3 != int(task['seed']) % 3:
+            continue
+        if J == 4 and gi % 5:
+            continue
+        af = ('var', 'none')[gi % 2]
+        t2 = level_table(alph, J, 2, af, alph['levels'])
+        spec = dict(kind='usermev', alts=alts, gen=gen, gmu=gmu, forms=dict(av=af), lg='homogeneous')
+        run_family(spec, [('mev', None), ('logmev', None)], t2, rec, extra_cols=user_logGi_columns_h(spec, t2))
+    rec.sample(dict(part='levels', alts=alts, levels=alph['levels'], rows=len(table.groups) * J))
+
+
+def _part_pyeval(task, alph, rec):
+    fam = task['fam']
+    J = task['J']
+    ev = task['ev']
+    tier = task['tier']
+    alts = alph['labels'][:J]
+    sc = alph['scale'][1]
+    if fam == 'logit':
+        for k in task['forms']:
+            forms = py_forms(k)
+            table = level_table(alph, J, task['n_u'], forms['av'], alph['levels'])
+            run_family(dict(kind='logit', alts=alts, forms=forms, evaluator=ev), [('logit', None), ('loglogit', None)], table, rec)
+    elif fam == 'usermev':
+        gens = usermev_generators(alph, J)
+        for gi in task['gens']:
+            gen, gmu = gens[gi]
+            for k in task['forms']:
+                forms = py_forms(k + gi)
+                table = level_table(alph, J, 2, forms['av'], alph['levels'], two_shifted=(J > 2))
+                spec = dict(kind='usermev', alts=alts, gen=gen, gmu=gmu, forms=forms, evaluator=ev, lg='homogeneous')
+                run_family(spec, [('mev', None), ('logmev', None)], table, rec, log_gi_groups=user_logGi_groups(spec, table))
+    elif fam in ('nested', 'cnl'):
+        if fam == 'nested':
+            structs = R.nested_structures(alts)
+            models = [('nested', None), ('lognested', None), ('nested_mev_mu', sc), ('lognested_mev_mu', sc)]
+        else:
+            structs = R.cnl_structures(alts, 2, alph['splits'][:task['ns']])
+            models = [('cnl', None), ('logcnl', None), ('cnlmu', sc), ('logcnlmu', sc)]
+        for si in task['structs']:
+            alone, nests = structs[si]
+            mus = [alph['mus'][(si + k + 1) % 3] for k in range(len(nests))]
+            base = dict(kind=fam, alts=alts, alone=list(alone), nests=[(list(n) if fam == 'nested' else dict(n)) for n in nests],
+                        mus=mus, evaluator=ev)
+            for k in range(task['nforms']):
+                forms = py_forms(si * task['nforms'] + k, si)
+                table = level_table(alph, J, 2, forms['av'], alph['mlevels'], two_shifted=(J > 2))
+                run_family(dict(base, forms=forms), models, table, rec)
+                if task.get('others') and nests:
+                    run_family(dict(base, forms=forms), other_entry_points(fam, si + k, sc), table, rec)
+    else:
+        raise ValueError(fam)
+    rec.sample(dict(part='pyeval', family=fam, evaluator=EVALUATOR_NAMES[ev], alts=alts,
+                    levels=alph['levels'] if fam in ('logit', 'usermev') else alph['mlevels']))
+
+
+def pyeval_tasks(alph, tier, seed):
+    quick = tier == 'quick'
+    seed = int(seed)
+    t = []
+    nf = len(PY_FORM_SWEEP)
+    mk = lambda **kw: dict(part='pyeval', seed=seed, tier=tier, **kw)
+    Jmax = 3 if quick else 4
+    # logit kernel: every form of the sweep under get_value; get_value_c(): two forms (quick, rotating) / all
+    for J in range(2, Jmax + 1):
+        n_u = 4 if J <= 3 else 3
+        for ch in _chunks(range(nf), 8 if J == 2 else (2 if J == 3 else 1)):
+            t.append(mk(fam='logit', J=J, ev='py', forms=list(ch), n_u=n_u))
+        c0 = [(seed + J) % nf, (seed + J + 3) % nf] if quick else list(range(nf))
+        for ch in _chunks(c0, 4 if J == 2 else 1):
+            t.append(mk(fam='logit', J=J, ev='c0', forms=list(ch), n_u=2 if quick else 3))
+    # hand-supplied ln G_i
+    for J in range(2, Jmax + 1):
+        ng = len(usermev_generators(alph, J))
+        gsel = [g for g in range(ng) if not (J == 4 and g % 5) and not (quick and J == 3 and (g + seed) % 2)]
+        for ch in _chunks(gsel, 6 if J == 2 else 3):
+            t.append(mk(fam='usermev', J=J, ev='py', gens=list(ch), forms=[0, 3] if quick else list(range(nf))))
+        for ch in _chunks(gsel[::3] if quick else gsel, 3):
+            t.append(mk(fam='usermev', J=J, ev='c0', gens=list(ch), forms=[1] if quick else [1, 4]))
+    # nested / cross-nested formulas at moderate levels
+    for J in (2, 3):
+        n = len(R.nested_structures(alph['labels'][:J]))
+        for ch in _chunks(range(n), 5 if J == 2 else 3):
+            t.append(mk(fam='nested', J=J, ev='py', structs=list(ch), nforms=2 if quick else 4, others=True))
+        for ch in _chunks(range(n) if not quick else [i for i in range(n) if (i + seed) % 3 == 0], 3):
+            t.append(mk(fam='nested', J=J, ev='c0', structs=list(ch), nforms=1, others=False))
+    for J, ns in ((2, 3), (3, 1)):
+        n = len(R.cnl_structures(alph['labels'][:J], 2, alph['splits'][:ns]))
+        sel = list(range(n)) if (not quick or J == 2) else [i for i in range(n) if (i + seed) % 4 == 0]
+        for ch in _chunks(sel, 6 if J == 2 else 3):
+            t.append(mk(fam='cnl', J=J, ns=ns, ev='py', structs=list(ch), nforms=1 if quick else 2, others=True))
+        for ch in _chunks(sel[seed % 4::8] if quick else sel[::2], 1):
+            t.append(mk(fam='cnl', J=J, ns=ns, ev='c0', structs=list(ch), nforms=1, others=False))
+    return t
+
+
 # --------------------------------------------------------------------------- ordered models
 def ordered_points(alph, K, tier):
     pts = []
@@ -1400,10 +1727,15 @@ def replay(case):
     alts = spec['alts']
     shifts = [grp['shift']] if grp['shift'] else []
     table = Table(alts, [base['u']], [base['avail']], shifts, [0] if shifts else [])
-    cols = user_logGi_columns(spec, table) if spec['kind'] == 'usermev' else None
+    cols = lgg = None
+    if spec['kind'] == 'usermev':
+        if spec.get('evaluator'):
+            lgg = user_logGi_groups(spec, table)
+        else:
+            cols = (user_logGi_columns_h if spec.get('lg') == 'homogeneous' else user_logGi_columns)(spec, table)
     models = [(spec['model'], spec.get('mu'))]
     if spec['model'] in LOG_OF:
         models.insert(0, (LOG_OF[spec['model']], spec.get('mu')))
     base_spec = {k: v for k, v in spec.items() if k not in ('model', 'mu')}
-    run_family(base_spec, models, table, rec, extra_cols=cols)
+    run_family(base_spec, models, table, rec, extra_cols=cols, log_gi_groups=lgg)
     return rec.violations
